@@ -8,9 +8,9 @@ REPO = os.environ.get("WV_REPO", "/repo")
 SPEC = os.path.join(VERIF, "spec")
 HARNESS = os.path.join(VERIF, "harness")
 CACHE = os.environ.get("WV_CACHE", "/var/tmp/wencry-verif")
-RUN = os.path.join(VERIF, "run")
-REPLAYS = os.path.join(VERIF, "replays")
-EVIDENCE = os.path.join(VERIF, "evidence")
+RUN = os.environ.get("WV_RUN", os.path.join(VERIF, "run"))
+REPLAYS = os.environ.get("WV_REPLAYS", os.path.join(VERIF, "replays"))
+EVIDENCE = os.environ.get("WV_EVIDENCE", os.path.join(VERIF, "evidence"))
 NCPU = min(16, os.cpu_count() or 4)
 GUARD = "WENCRY_VERIF"
 
